@@ -58,7 +58,9 @@ def confirm(prop, k):
 
 def detect(prop, k):
     """runs the checks against the patched tree: /repo HEAD if the patch applies there, else a worktree of the snapshot"""
-    patch = f"/tmp/seedout/{prop}/{k}/patch.diff"
+    patch = f"/verif/seeded/{prop}-{k}/patch.diff"
+    if not os.path.exists(patch):
+        patch = f"/tmp/seedout/{prop}/{k}/patch.diff"
     wt = tempfile.mkdtemp(prefix="seeddet-", dir="/tmp"); os.rmdir(wt)
     base = "HEAD"
     rc, _ = sh(f"git -C /repo worktree add -q --detach {wt} HEAD", "/")
@@ -89,11 +91,21 @@ def main():
     for d in sorted(glob.glob("/tmp/seedout/C*/[0-9]")):
         parts = d.split("/")
         seeds.append((parts[3], parts[4]))
-    only = sys.argv[1:]
+    for d in sorted(glob.glob("/verif/seeded/C*-[0-9]*")):
+        prop, k = os.path.basename(d).split("-")
+        if (prop, k) not in seeds:
+            seeds.append((prop, k))
+    only = [a for a in sys.argv[1:] if not a.startswith("--")]
     if only:
         seeds = [s for s in seeds if f"{s[0]}-{s[1]}" in only or s[0] in only]
+    def conf(s):
+        # already confirmed and filed: only refresh the detection record
+        mp = f"/verif/seeded/{s[0]}-{s[1]}/meta.json"
+        if os.path.exists(mp) and "--reconfirm" not in sys.argv:
+            return json.load(open(mp))
+        return confirm(*s)
     with concurrent.futures.ThreadPoolExecutor(max_workers=6) as ex:
-        results = list(ex.map(lambda s: confirm(*s), seeds))
+        results = list(ex.map(conf, seeds))
     for (prop, k), res in zip(seeds, results):
         if not res: continue
         ok = all(res["confirmed"].get(x) for x in ["applies_to_snapshot", "build_vet", "suite_green_with_patch", "demo_fails_with_patch", "demo_passes_without_patch"])
@@ -108,9 +120,10 @@ def main():
         res["findings"] = {p: [h[:400] for h in hits] for p, hits in found.items() if hits}
         out = f"/verif/seeded/{prop}-{k}"
         os.makedirs(out + "/demo", exist_ok=True)
-        shutil.copy(f"/tmp/seedout/{prop}/{k}/patch.diff", out + "/patch.diff")
-        for d in glob.glob(f"/tmp/seedout/{prop}/{k}/demo/*"):
-            if os.path.isfile(d): shutil.copy(d, out + "/demo/")
+        if os.path.exists(f"/tmp/seedout/{prop}/{k}/patch.diff"):
+            shutil.copy(f"/tmp/seedout/{prop}/{k}/patch.diff", out + "/patch.diff")
+            for d in glob.glob(f"/tmp/seedout/{prop}/{k}/demo/*"):
+                if os.path.isfile(d): shutil.copy(d, out + "/demo/")
         json.dump(res, open(out + "/meta.json", "w"), indent=1)
         print("   detected by:", rules or "NOTHING", flush=True)
 
